@@ -13,9 +13,9 @@ import (
 )
 
 // Client message alphabet of C16.
-const C16Msgs = 12
+const C16Msgs = 13
 
-var C16MsgNames = []string{"EVENT r", "EVENT r(again)", "EVENT v@2", "EVENT v@1(older)", "EVENT del->r", "EVENT ephemeral", "REQ all", "REQ kinds:[0]", "REQ limit:1", "COUNT", "CLOSE", "AUTH"}
+var C16MsgNames = []string{"EVENT r", "EVENT r(again)", "EVENT v@2", "EVENT v@1(older)", "EVENT del->r", "EVENT ephemeral", "REQ all", "REQ kinds:[0]", "REQ limit:1", "COUNT", "CLOSE", "AUTH", "REQ ids:[abc] (not hex of even length: the SQLite query fails)"}
 
 type c16Alphabet struct {
 	r, v2, v1, del, eph, auth *mocrelay.Event
@@ -56,6 +56,8 @@ func (a *c16Alphabet) msg(code int, n int) mocrelay.ClientMsg {
 		return CountMsg(sub)
 	case 10:
 		return CloseMsg(sub)
+	case 12:
+		return ReqMsg(sub, &mocrelay.ReqFilter{IDs: []string{"abc"}})
 	}
 	m, _ := mocrelay.NewClientAuthMsg(a.auth)
 	return m
